@@ -50,10 +50,10 @@ def adversarial_arg(rng):
     if k == 1:
         return "0x"
     if k == 2:
-        n = rng.choice(BOUNDARY)
+        n = rng.choice(BOUNDARY) if rng.chance(70) else rng.range(0, 600)
         return rng.bytes(n).hex()
     if k == 3:
-        n = rng.choice(BOUNDARY)
+        n = rng.choice(BOUNDARY) if rng.chance(70) else rng.range(0, 600)
         return "0x" + rng.bytes(n).hex()
     if k == 4:
         return str(rng.choice([0, 1, -1, 16, 17, 255, 256, 65535, 2147483647, -2147483648, 2147483648, 9223372036854775807, -9223372036854775808]))
